@@ -1,6 +1,7 @@
 import ArrowModel.C01.Lemmas
 import ArrowModel.C01.Kernels
 import ArrowModel.C01.Safe
+import ArrowModel.C01.PhysicalExt
 /-
 C01 property statements: *every array returned by a safe API is a well-formed Arrow array*.
 
